@@ -74,8 +74,8 @@ class G:
 
 def gen_case(rng, i):
     layout = rng.choice(sorted(LAYOUTS))
-    cwdmode = rng.choice(["cfgdir", "cfgdir", "subdir", "subdir-nearest", "other-flag", "other-env"])
-    g = G(rng, cwdmode == "cfgdir")
+    cwdmode = rng.choice(["cfgdir", "cfgdir", "cfgdir-symlink", "subdir", "subdir-nearest", "other-flag", "other-env"])
+    g = G(rng, cwdmode in ("cfgdir", "cfgdir-symlink"))
     exported = rng.random() < 0.7
     iname = rng.choice(["Store", "Reader", "HTTPDoer", "Worker", "UserService", "Catalogue", "Uri", "Utf8"]) if exported else rng.choice(["store", "reader", "httpDoer", "cacheService", "url", "uri", "_Hidden", "_plain", "élan"])
     exprs = {}
@@ -128,6 +128,15 @@ FIXED = [
     {"kind": "expr", "i": -3, "layout": "rootpkg", "cwd": "other-env", "cfgname": ".mockery.yaml", "iface": "reader", "what": "env-config",
      "exprs": {"structname": "{{.Mock}}{{.InterfaceName | firstUpper}}", "dir": "{{.ConfigDir}}/gen", "filename": "{{.InterfaceName}}.go", "pkgname": "{{.SrcPackageName}}x"}},
     KF_IDR,
+    {"kind": "expr", "i": -13, "layout": "nested", "cwd": "cfgdir-symlink", "cfgname": ".mockery.yml", "iface": "Store", "what": "cwd-through-symlink", "srcfile": "iface.go", "linedir": None,
+     "exprs": {"structname": "MockStore", "dir": "mocks/{{.InterfaceDirRelative}}", "filename": "m.go", "pkgname": "mocks"}},
+    {"kind": "expr", "i": -14, "layout": "sub", "cwd": "cfgdir-symlink", "cfgname": ".mockery.yaml", "iface": "reader", "what": "cwd-through-symlink", "srcfile": "iface.go", "linedir": None,
+     "exprs": {"structname": "{{.Mock}}R", "dir": "{{.ConfigDir}}/gen/{{.InterfaceDirRelative}}", "filename": "{{.InterfaceDir | base}}_m.go", "pkgname": "gen"}},
+    # self-references inside a string literal: the value is a cycle although no single round makes it longer than the literal allows to see
+    {"kind": "expr", "i": -11, "layout": "nested", "cwd": "cfgdir", "cfgname": ".mockery.yml", "iface": "Store", "what": "cycle-through-literal", "srcfile": "iface.go", "linedir": None,
+     "exprs": {"structname": "{{\"{{.StructName}}{{.StructName}}\"}}", "dir": "out", "filename": "m.go", "pkgname": "m"}},
+    {"kind": "expr", "i": -12, "layout": "sub", "cwd": "cfgdir", "cfgname": ".mockery.yml", "iface": "Store", "what": "cycle-through-literal", "srcfile": "iface.go", "linedir": None,
+     "exprs": {"structname": "{{\"{{.StructName}}\"}}", "dir": "out", "filename": "m.go", "pkgname": "m"}},
     {"kind": "expr", "i": -6, "layout": "initialism", "cwd": "cfgdir", "cfgname": ".mockery.yml", "iface": "Uri", "what": "initialisms", "srcfile": "iface.go", "linedir": None,
      "exprs": {"structname": "M{{ .InterfaceName | exported }}{{ \"utf8\" | exported }}{{ \"id\" | exported }}", "dir": "out/{{ .SrcPackageName | exported }}", "filename": "m.go", "pkgname": "m"}},
     {"kind": "expr", "i": -10, "layout": "nested", "cwd": "subdir-nearest", "cfgname": ".mockery.yml", "iface": "Store", "what": "nearest-config-wins", "srcfile": "iface.go", "linedir": None,
@@ -170,8 +179,18 @@ def eval_case(ctx, case):
     # working directory / config location
     cfgpath = os.path.join(root, case["cfgname"])
     args, env = [], {}
+    base = root
     if case["cwd"] == "cfgdir":
         cwd = root
+    elif case["cwd"] == "cfgdir-symlink":
+        # the working (= config) directory is reached through a symbolic link and $PWD says so: go list and os.Getwd report paths below the link,
+        # and every documented variable is bound as for a real directory of that name
+        base = root.rstrip("/") + "-link"
+        if not os.path.islink(base):
+            os.symlink(root, base)
+        cwd = base
+        cfgpath = os.path.join(base, case["cfgname"])
+        env = {"PWD": base}
     elif case["cwd"] == "subdir":
         cwd = os.path.join(root, "cwdsub", "deeper")
     elif case["cwd"] == "subdir-nearest":
@@ -191,7 +210,7 @@ def eval_case(ctx, case):
         cfgpath = os.path.join(root, "conf", "my.yml")
         env = {"MOCKERY_CONFIG": cfgpath}
     cfgdir = os.path.dirname(cfgpath)
-    ifacedir = os.path.join(root, reldir) if reldir else root
+    ifacedir = os.path.join(base, reldir) if reldir else base
     data = {"ConfigDir": cfgdir, "InterfaceDir": ifacedir, "InterfaceDirRelative": os.path.relpath(ifacedir, cfgdir),
             "InterfaceFile": os.path.join(ifacedir, srcfile), "InterfaceName": iname, "Mock": "Mock" if iname[0].isupper() else "mock",
             "SrcPackageName": pkgname, "SrcPackagePath": srcpath, "Template": tmpl}
@@ -230,6 +249,10 @@ def eval_case(ctx, case):
         return Verdict.violated("mockery crashed", dict(obs, **r.brief()), tags)
     errs = [k for k, v in expect.items() if isinstance(v, tuple)]
     if diverges or errs:
+        if r.exit is not None and r.exit < 0:
+            # killed by a signal (out of memory, CPU limit): the evaluation did not end by itself with the diagnostic it owes
+            return Verdict.violated("a templated value never stabilises (%s): the run did not end by itself but was killed (exit %s)" % ("diverges" if diverges else errs, r.exit),
+                                    dict(obs, **r.brief()), tags)
         if r.exit == 0:
             return Verdict.violated("a templated value never stabilises / does not evaluate (%s) but mockery exited 0" %
                                     ("diverges" if diverges else errs), dict(obs, **r.brief()), tags)
@@ -371,7 +394,7 @@ def eval_schema2(ctx, case):
 
 
 def kf_key(case):
-    if "InterfaceDirRelative" in json.dumps(case["exprs"]) and case["cwd"] != "cfgdir":
+    if "InterfaceDirRelative" in json.dumps(case["exprs"]) and case["cwd"] not in ("cfgdir", "cfgdir-symlink"):
         return "InterfaceDirRelative-relative-to-cwd"
     return None
 
